@@ -210,3 +210,99 @@ Proof.
   rewrite (lex_loop_ped _ _ _ _ _ E). auto.
 Qed.
 
+
+(* relational form: under --pedantic a lexer step gives the same result or a pedantic error *)
+Definition lres_rel (x y : lres) : Prop := x = y \/ exists e, x = LErr e /\ le_kind e = LexPedantic.
+
+Lemma make_word_rel s toks : lres_rel (make_word true s toks) (make_word false s toks).
+Proof.
+  unfold make_word. destruct (word_loop (S (List.length (rest s))) s []) as [s1 w].
+  destruct (lookup_kw w keywords) as [k|]; [|left; reflexivity].
+  destruct k; try (left; reflexivity); right; eexists; split; reflexivity.
+Qed.
+
+Lemma lex_step_rel s toks : lres_rel (lex_step true s toks) (lex_step false s toks).
+Proof.
+  unfold lex_step. destruct (simple_tok (curc s)); [left; reflexivity|].
+  repeat match goal with |- context [if ?b then _ else _] => destruct b end; try (left; reflexivity). apply make_word_rel.
+Qed.
+
+Lemma lex_loop_rel : forall fuel s toks, lres_rel (lex_loop fuel true s toks) (lex_loop fuel false s toks).
+Proof.
+  induction fuel as [|f IH]; intros s toks; cbn; [left; reflexivity|].
+  destruct (at_end s); [left; reflexivity|].
+  destruct (lex_step_rel s toks) as [E|[e [E Hk]]].
+  - rewrite E. destruct (lex_step false s toks); [apply IH|left; reflexivity].
+  - rewrite E. right. eauto.
+Qed.
+
+Lemma lex_rel input : lex true input = lex false input \/ exists e, lex true input = inr e /\ le_kind e = LexPedantic.
+Proof.
+  unfold lex. destruct (lex_loop_rel (S (List.length (remove_cr input))) (init_lst (remove_cr input)) []) as [E|[e [E Hk]]].
+  - rewrite E. left. reflexivity.
+  - rewrite E. right. eauto.
+Qed.
+
+(* with the option, an accepted text contains no BREAK and no CONTINUE token: they are rejected, not dropped *)
+Definition not_bc (t : token) : Prop := tt t <> TBREAK /\ tt t <> TCONTINUE.
+
+Lemma make_word_no_bc s toks s' toks' : Forall not_bc toks -> make_word true s toks = LOk s' toks' -> Forall not_bc toks'.
+Proof.
+  intros HP. unfold make_word. destruct (word_loop (S (List.length (rest s))) s []) as [s1 w].
+  destruct (lookup_kw w keywords) as [k|].
+  - destruct k; intros H; try discriminate; inversion H; subst; (constructor; [split; discriminate|exact HP]).
+  - destruct (is_data_type_word w); intros H; inversion H; subst; (constructor; [split; discriminate|exact HP]).
+Qed.
+Lemma make_number_no_bc s toks s' toks' : Forall not_bc toks -> make_number s toks = LOk s' toks' -> Forall not_bc toks'.
+Proof.
+  intros HP. unfold make_number. destruct (number_loop (S (List.length (rest s))) s false []) as [[s1 d] txt].
+  cbv zeta. repeat match goal with |- context [if ?b then _ else _] => destruct b end;
+  try destruct (digits_loop _ _ _) as [s3 yrev]; intros H; inversion H; subst; (constructor; [split; discriminate|exact HP]).
+Qed.
+Lemma make_char_no_bc s toks s' toks' : Forall not_bc toks -> make_char s toks = LOk s' toks' -> Forall not_bc toks'.
+Proof.
+  intros HP. unfold make_char. destruct (Nat.ltb _ 3); [discriminate|]. cbv zeta.
+  match goal with |- context [match ?b with inl _ => _ | inr _ => _ end] => destruct b as [[s2 c]|e] end; [|discriminate].
+  destruct (rest s2) as [|x [|q r]]; try discriminate. destruct (aeqb q ch_quote); [|discriminate].
+  intros H; inversion H; subst. constructor; [split; discriminate|exact HP].
+Qed.
+Lemma make_string_no_bc s toks s' toks' : Forall not_bc toks -> make_string s toks = LOk s' toks' -> Forall not_bc toks'.
+Proof.
+  intros HP. unfold make_string. cbv zeta. destruct (string_loop _ _ _) as [[s2 acc]|e]; [|discriminate].
+  destruct (at_end s2 || negb (aeqb (curc s2) ch_dquote)); [discriminate|].
+  intros H; inversion H; subst. constructor; [split; discriminate|exact HP].
+Qed.
+
+Lemma lex_step_no_bc s toks s' toks' :
+  Forall not_bc toks -> lex_step true s toks = LOk s' toks' -> Forall not_bc toks'.
+Proof.
+  intros HP H. unfold lex_step in H.
+  destruct (simple_tok (curc s)) as [k|] eqn:Es.
+  { assert (Hk : k <> TBREAK /\ k <> TCONTINUE).
+    { clear -Es. unfold simple_tok in Es.
+      repeat match type of Es with (if ?b then _ else _) = _ => destruct b end; inversion Es; subst; split; discriminate. }
+    inversion H; subst. constructor; [exact Hk|exact HP]. }
+  destruct (aeqb (curc s) "/").
+  { destruct (at_end (advance s) || negb (aeqb (curc (advance s)) "/")); inversion H; subst; [constructor; [split; discriminate|exact HP]|exact HP]. }
+  destruct (aeqb (curc s) "(").
+  { match type of H with (if ?b then _ else _) = _ => destruct b end; [discriminate|]. inversion H; subst. constructor; [split; discriminate|exact HP]. }
+  destruct (aeqb (curc s) "=").
+  { destruct (at_end (advance s) || negb (aeqb (curc (advance s)) "=")); [|discriminate]. inversion H; subst. constructor; [split; discriminate|exact HP]. }
+  destruct (aeqb (curc s) ch_quote); [eapply make_char_no_bc; eauto|].
+  destruct (aeqb (curc s) ch_dquote); [eapply make_string_no_bc; eauto|].
+  destruct (aeqb (curc s) ">").
+  { destruct (at_end (advance s) || negb (aeqb (curc (advance s)) "=")); inversion H; subst; constructor; try exact HP; split; discriminate. }
+  destruct (aeqb (curc s) "<").
+  { repeat match type of H with (if ?b then _ else _) = _ => destruct b end; inversion H; subst; constructor; try exact HP; split; discriminate. }
+  destruct (is_alpha (curc s)); [eapply make_word_no_bc; eauto|].
+  destruct (is_digit (curc s)) eqn:Ed; [eapply make_number_no_bc; eauto|].
+  destruct (aeqb (curc s) ch_space || aeqb (curc s) ch_tab); [|discriminate]. inversion H; subst. exact HP.
+Qed.
+
+Lemma lex_ped_no_break_continue input toks : lex true input = inl toks -> Forall not_bc toks.
+Proof.
+  unfold lex. destruct (lex_loop (S (List.length (remove_cr input))) true (init_lst (remove_cr input)) []) as [s ts|e] eqn:E; [|discriminate].
+  intros H. inversion H; subst. apply Forall_app. split; [apply Forall_rev|constructor; [split; discriminate|constructor]].
+  eapply (lex_loop_invariant (Forall not_bc) true); [|constructor|exact E].
+  intros s0 t0 s1 t1 HP He Hs. eapply lex_step_no_bc; eauto.
+Qed.
